@@ -4,6 +4,7 @@
 import SV.Misc.UnitProofs
 import SV.Misc.UnitReal
 import SV.GenProofs.Config
+import SV.FactsProofs.Unit
 namespace SV.Props.C16
 open SV SV.Unit SV.UnitReal
 
@@ -51,5 +52,11 @@ theorem real_unit_rejected_put_not_served {C : Cacher} (L : C.Lawful) (u : RU C)
 /-- the factory refuses a unit whose persister batch is larger than its cache (translated from `NewStorageUnitFromConf`) -/
 theorem factory_refuses_batch_larger_than_cache (maxBatch capacity : Nat) (h : Gen.unitConfRejected maxBatch capacity = false) :
     maxBatch ≤ capacity := GenProofs.unitConf_accepted maxBatch capacity h
+
+/-- (regenerated fact) Put, Get (lookup + persister read + refill) and Remove each hold the unit lock for their whole body:
+    the two layers are updated under one lock, so concurrent calls are serialised and the sequential statements apply -/
+theorem unit_operations_hold_the_lock_throughout :
+    (Facts.unitGetSingleSection && Facts.unitPutSingleSection && Facts.unitRemoveSingleSection) = true :=
+  Facts.unit_operations_are_single_sections
 
 end SV.Props.C16
